@@ -80,7 +80,7 @@ fn pl_content_with(field: &str, level: i64) -> Value {
     c
 }
 
-pub const TEMPLATES: [Template; 20] = [
+pub const TEMPLATES: [Template; 21] = [
     ("C promotes M to 100", C, "m.room.power_levels", "", || pl_content(&[(C, 100), (M, 100)])),
     ("C demotes M", C, "m.room.power_levels", "", || pl_content(&[(C, 100)])),
     ("M promotes U to 50", M, "m.room.power_levels", "", || pl_content(&[(C, 100), (M, 50), (U, 50)])),
@@ -105,6 +105,8 @@ pub const TEMPLATES: [Template; 20] = [
     ("K knocks", K, "m.room.member", K, || json!({"membership": "knock"})),
     // same sender as the knock rule: equal power, so the later one wins the power phase
     ("M sets join_rules invite", M, "m.room.join_rules", "", || json!({"join_rule": "invite"})),
+    // a join that only a public join rule authorises (K was never invited)
+    ("K joins", K, "m.room.member", K, || json!({"membership": "join"})),
 ];
 
 /// names for appended events: creation order and id order deliberately disagree
@@ -222,6 +224,17 @@ impl History {
             'D' | 'E' => {
                 let mut h = History::base_with_create_sender(v, kind == 'D', M);
                 h.base_kind = kind;
+                h
+            }
+            // F: room A after the creator made it invite-only (so that a later "public" is a new event that only
+            // the joins made under it cite)
+            'F' => {
+                let mut h = History::base(v, true);
+                let tip = h.nodes.len() - 1;
+                h = h.apply(Action { template: 7, prev: (tip, None), ts_class: 2 }).expect("room F construction must be authorised");
+                h.base_len = h.nodes.len();
+                h.base_kind = 'F';
+                h.trail.clear();
                 h
             }
             _ => {
